@@ -34,7 +34,7 @@ var projection = map[string][]string{
 	"C17": {"comp", "compexit", "comperr", "panic", "timeout", "def"},
 	"C18": {"help", "dtext", "dkind", "panic", "timeout"},
 	"C19": {"panic", "timeout", "def", "status", "rem", "compexit"},
-	"C20": {"status", "err", "errclass", "rem", "warn", "val", "view", "dkind", "dfn", "dargs", "dview", "dtext", "derr", "help", "comp", "comperr", "compexit", "def", "panic", "timeout"},
+	"C20": {"status", "err", "errclass", "rem", "warn", "val", "view", "dkind", "dfn", "dargs", "dview", "dtext", "derr", "help", "comp", "comperr", "compexit", "def", "reqarg", "panic", "timeout"},
 }
 
 type Failure struct {
@@ -199,6 +199,16 @@ func runDiff(prop string, seed int64, n int, driverPath, corpusDir, outPath stri
 				e = e[:j]
 			}
 			rep.Outcomes[f["st"]+f["c"]+" "+e]++
+			for _, a := range ans[1:] {
+				if strings.HasPrefix(a, "R ") {
+					_, rf := parseAnswer(a)
+					st := rf["st"]
+					if st == "" {
+						st = "not called (the parse failed)"
+					}
+					rep.Outcomes["GetRequiredArg "+st]++
+				}
+			}
 		}
 		if len(toks) > 0 {
 			sigs[signature(c, ans)] = true
